@@ -10,9 +10,9 @@ from fractions import Fraction as F
 from mc import domains as D
 from mc.engine import InputPart, Viol
 from mc.models import ival
-from mc.props.common import IT, PT, Textgrid, errors, PE, call, ents, order_type, wellformed
+from mc.props.common import IT, PT, Textgrid, errors, PE, call, ents, order_type, wellformed, fresh
 
-MODES = ("stretch", "split", "no_change", "error")
+MODES = fresh(("stretch", "split", "no_change", "error"))
 
 
 def _check_iv(case, exact):
